@@ -90,6 +90,16 @@ def topics? (w : String) : Option Bytes := do
   let b ← ofHex? w
   if b.length % 32 = 0 then some b else none
 
+/-- `k1 v1 k2 v2 …`, all 32-byte words -/
+def pairs? : List String → Option (List (Key × Val))
+  | [] => some []
+  | [_] => none
+  | k :: v :: rest => do
+    let k ← hash? k
+    let v ← hash? v
+    let r ← pairs? rest
+    pure ((k, v) :: r)
+
 def parseOp (ws : List String) : Option Op :=
   match ws with
   | ["setnonce", a, n] => do some (.setNonce (← addr? a) (← u64? n))
@@ -126,6 +136,14 @@ def parseOp (ws : List String) : Option Op :=
   | ["codesize", a] => do some (.qCodeSize (← addr? a))
   | ["codehash", a] => do some (.qCodeHash (← addr? a))
   | ["getft", a, k] => do some (.qFT (← addr? a) (← ftkey? k))
+  | ["allrefund", a] => do some (.qAllRefund (← addr? a))
+  | ["addbinding", name, b, ct, p, d] => do
+    let nm ← ofHex? name
+    if nm.take 4 ≠ "bind".toUTF8.toList then none else
+    some (.addBinding (← addr? b) (← addr? ct) (← u64? p) (← u64? d))
+  | "setstorage" :: a :: rest => do
+    let kvs ← pairs? rest
+    if (kvs.map (·.1)).Nodup then some (.setStorage (← addr? a) kvs) else none
   | _ => none
 
 /-- addresses whose balance slot key an op needs -/
@@ -159,6 +177,10 @@ def answer (c : Cfg) (s : ADB) (ws : List String) : Op → String
   | .qCodeSize a => toString (getCodeSize s a).2
   | .qCodeHash a => toHex (getCodeHash s a).2
   | .qFT a k => toString (getFT s a k).2
+  | .qAllRefund a =>
+    let r := (getAllRefund s a).2
+    if r.isEmpty then "-" else String.intercalate "," ((sortKV r).map (fun p => toHex p.1 ++ "=" ++ toString p.2))
+  | .addBinding b ct p d => b2s (addERC20Binding s b ct p d).2
   | _ => "ok"
 
 def finish (st : St) (s' : ADB) (ans : String) : St × String :=
